@@ -1574,22 +1574,21 @@ void EvalStrExpression(tStrComp const* pExpr, TempResult* pErg) {
         PromotedAddrSpaceMask = 0;
         PromotedDataSize      = eSymbolSizeUnknown;
         do {
+            if (cnt >= 3) {
+                WrError(ErrNum_InvFuncArgCnt);
+                LEAVE;
+            }
             zp = QuotPos(FArg.str.p_str, ',');
             if (zp) {
                 StrCompSplitRef(&InArgs[cnt], &Remainder, &FArg, zp);
             } else {
                 InArgs[cnt] = FArg;
             }
-            if (cnt < 3) {
-                EvalStrExpression(&InArgs[cnt], &InVals[cnt]);
-                if (InVals[cnt].Typ == TempNone) {
-                    LEAVE;
-                }
-                TReloc = InVals[cnt].Relocs;
-            } else {
-                WrError(ErrNum_InvFuncArgCnt);
+            EvalStrExpression(&InArgs[cnt], &InVals[cnt]);
+            if (InVals[cnt].Typ == TempNone) {
                 LEAVE;
             }
+            TReloc = InVals[cnt].Relocs;
             if (TReloc) {
                 WrStrErrorPos(ErrNum_NoRelocs, &InArgs[cnt]);
                 FreeRelocs(&TReloc);
